@@ -63,13 +63,16 @@ class C14(Property):
                          "splitLoop_step", "splitLoop_exit", "splitLoop_flush", "splitLoop_spec", "convertPoints_unfold", "convertPoints_spec",
                          "isSplit_iff", "duplicate_dropped", "duplicate_types_previous", "no_split_unchanged",
                          "catmull_no_split_after_first", "no_split_at_segment_end", "no_split_beyond_limit", "emitRange_congr",
-                         "first_point_origin_typed", "segment_end_point_shared"]
+                         "first_point_origin_typed", "segment_end_point_shared",
+                         "pathLoop_eq", "convertSegments_eq", "convertFrom_eq_run", "convertFrom_empty_fails", "convertPathStr_spec"]
     partial_theorems = {
-        "path splitting": "proved in closed form for one convert_points call (splitLoop_spec / convertPoints_spec: the control points appended are the vertices below "
-            "len − end_point_len whose index is not a split index, typed iff the next index is one; first_point_origin_typed, duplicate_dropped / duplicate_types_previous, "
-            "catmull_no_split_after_first, no_split_at_segment_end, segment_end_point_shared) under the hypothesis that the segment has a vertex of its own (first segment, or "
-            "at least one point after the type letter — the only calls convert_path_str can make successfully). Not proved: the closed form of the whole path string "
-            "(the segment loop of convert_path_str, `pathLoop`), which stays compared with the code and judged by the reference grammar lib/refho.py",
+        "path splitting": "proved in closed form: convertPathStr_spec (the path string is cut before every piece that starts with an ASCII letter, each segment is handed the "
+            "piece after the next type piece as its end point, an empty piece fails, failure clears curve_points) and, per segment, splitLoop_spec / convertPoints_spec "
+            "(the control points appended are the vertices below len − end_point_len whose index is not a split index, typed iff the next index is one), with the clauses "
+            "first_point_origin_typed, duplicate_dropped / duplicate_types_previous, catmull_no_split_after_first, no_split_at_segment_end, segment_end_point_shared. "
+            "convertPoints_spec assumes the segment has a vertex of its own (first segment, or at least one point after the type letter); a later segment consisting of a type "
+            "letter only can only be reached after its predecessor failed to read that letter as its end point, which holds for Rust's float grammar but is not provable for an "
+            "abstract Scalar.parse, so the two statements are not composed into one formula for the whole string",
         "max_zero_nonneg / durations": "proved from three order facts about `<` (irreflexive, asymmetric, false on NaN) taken as hypotheses; the hold duration "
             "`max(start,end) - start ≥ 0` additionally needs field laws and is only exercised",
     }
